@@ -55,9 +55,10 @@ from .facts import AnalysisBroken as AnalysisBrokenT
 
 
 class PathInfo:
-    def __init__(self, func, path, inliner=None):
+    def __init__(self, func, path, inliner=None, track_mem=False):
         self.func = func; self.path = path
-        self.steps = sym.symexec(func, path, inliner=inliner)
+        self.track_mem = track_mem
+        self.steps = sym.symexec(func, path, inliner=inliner, track_mem=track_mem)
         self.id = '/'.join('%d%s' % (b, '' if l is None else ('T' if l is True else 'F' if l is False else str(l))) for b, l in path)
 
     def events(self, kind=None):
@@ -79,7 +80,7 @@ class PathInfo:
         out = []
         for ev, env in self.steps:
             if ev.kind == 'assume' and isinstance(ev.op, bool):
-                atom, pol = cond_atom(ev.e.subst(env))
+                atom, pol = cond_atom(sym.resolve(ev.e, env))
                 out.append((atom, ev.op if pol else (not ev.op), ev))
         return out
 
@@ -111,11 +112,41 @@ class PathInfo:
     def after(self, ev):
         return self.steps[self.index(ev) + 1:]
 
+    PURE_CALLS = ()
+
+    def _pure(self, atom):
+        for x in atom.walk():
+            if x.k == 'call' and x.n not in self.PURE_CALLS and x.n not in getattr(self, 'pure_calls', ()):
+                return False
+        return True
+
     def feasible(self, stable=()):
         """Drop paths on which a resolved branch condition is a constant contradicting the edge,
         or two relational assumptions over the same resolved operands contradict.
         stable: names of struct fields the rule declares constant during the function
         (configuration fields); conditions reading only those (and locals) may contradict too."""
+        # a pointer through which a member was reached (p->f, &p->f) earlier on the path is not NULL afterwards
+        nonnull = set()
+        for ev, env in self.steps:
+            if ev.kind == 'assume' and isinstance(ev.op, bool):
+                atom, pol = cond_atom(sym.resolve(ev.e, env))
+                truth = ev.op if pol else (not ev.op)
+                if not truth and atom.s in nonnull and atom.k in ('call', 'ref', 'mem', 'idx'):
+                    return False
+                continue
+            exprs = []
+            if ev.kind == 'call':
+                exprs = list(ev.args or ())
+            elif ev.kind == 'store':
+                exprs = [ev.lhs] + ([ev.rhs] if ev.rhs is not None else [])
+            elif ev.kind in ('load', 'ret') and ev.e is not None:
+                exprs = [ev.e]
+            for x in exprs:
+                for y in x.walk():
+                    if y.k == 'mem' and y.op == '->':
+                        b = sym.resolve(y.ch[0], env)
+                        if b.k in ('call', 'ref', 'mem', 'idx'):
+                            nonnull.add(b.s)
         sw = {}
         for c, lab, ev in self.switches():
             if lab != 'default':
@@ -140,6 +171,11 @@ class PathInfo:
                     return False
                 if stable and _only_stable_memory(atom, stable):
                     return False
+                if self.track_mem and '(' not in key.replace('SEGMENT_AT_TID(', '').replace('(%s' % '', '') and False:
+                    return False
+                if self.track_mem and self._pure(atom):
+                    # memory cells are tracked on this path: an identical resolved expression reads identical values
+                    return False
             facts.setdefault(key, truth)
         return True
 
@@ -155,13 +191,14 @@ def _only_stable_memory(atom, stable):
     return True
 
 
-def all_paths(func, feasible_only=True, inline=None, inline_names=None, stable=(), **kw):
+def all_paths(func, feasible_only=True, inline=None, inline_names=None, stable=(), track_mem=False, pure_calls=(), **kw):
     """inline: a facts.Unit — calls to its small functions are expanded into the paths."""
     out = []
     import itertools
     for p in func.paths(**kw):
         if inline is None:
-            pis = [PathInfo(func, p)]
+            pis = [PathInfo(func, p, track_mem=track_mem)]
+            pis[0].pure_calls = tuple(pure_calls)
         else:
             dry = Inliner(inline, inline_names)
             dry.names = None if inline_names is None else set(inline_names)
